@@ -321,10 +321,22 @@ def hist_check(prop, tier, seed, runs, workers, secs):
     unconfirmed = []  # seen once, gone when the same run is repeated in a fresh process
     known_hits = {}
     by_class = {}
+    # Up to six candidates per class, in run order: a violation that hangs on state shared between VM
+    # instances (a static, a thread-local) may need the runs that preceded it in its worker process
+    # and not come back alone; another run of the same class often carries the whole story itself.
     for v in sorted(violations, key=lambda v: int(v["run_index"])):
         if "violation" in v:
-            by_class.setdefault(v["violation"]["class"], v)
-    for vclass, v in sorted(by_class.items()):
+            c = by_class.setdefault(v["violation"]["class"], [])
+            if len(c) < 6:
+                c.append(v)
+    candidates = []
+    for vclass, vs in sorted(by_class.items()):
+        for n, v in enumerate(vs):
+            candidates.append((vclass, v, n == len(vs) - 1))
+    settled = set()
+    for vclass, v, last in candidates:
+        if vclass in settled:
+            continue
         kinds_seq = v.get("history_kinds", [])
         path = os.path.join(REPLAYS, "%s-%s-%s-%s.json" % (prop, seed, v["run_index"], slug(vclass)))
         with open(path, "w") as f:
@@ -343,8 +355,10 @@ def hist_check(prop, tier, seed, runs, workers, secs):
             except Exception:
                 pass
             if not again:
-                unconfirmed.append((vclass, path))
+                if last:
+                    unconfirmed.append((vclass, path))
                 continue
+        settled.add(vclass)
         k = match_known(known, prop, vclass, kinds_seq)
         if k is not None:
             known_hits[k.get("id", vclass)] = (k, path)
